@@ -405,7 +405,7 @@ def handmade():
     out.append((1, [NG, TS, A('awardeb'), A('shot', i=1, kind='hit'), A('rotate'), A('ach', kind='enable'), A('ach', kind='start'),
                     A('shot', i=2, kind='enable'), AP, BE, A('shot', i=2, kind='hit'), A('var', kind='set'), BE, TS, A('var', kind='add'),
                     A('shot', i=1, kind='disable'), A('shot', i=1, kind='hit'), A('ach', kind='enable'), BE, TS, A('ach', kind='complete'),
-                    A('shot', i=1, kind='hit'), A('awardeb'), A('endgame'), A('score'), BE, NG, TS, A('score'), AP, BE, TS, BE]))
+                    A('shot', i=1, kind='hit'), A('awardeb'), A('endgame'), NG, TS, A('score'), AP, BE, TS, BE]))
     # single player
     out.append((2, [NG, TS, AP, hit('q1', 0), hit('q1', 1), hit('a1', 0), A('modestart'), hit('c3'), A('shot', i=3, kind='hit'),
                     A('shot', i=3, kind='disable'), BE, TS, hit('c3'), A('shot', i=3, kind='hit'), hit('a1', 1), A('lb', dev='c1', kind='disable', k=0),
